@@ -51,10 +51,18 @@ def c_expect_poly(ctx, args):
     else:
         obj = pc.PauliPolynomial(NP.GS([x[0] for x in terms], 2 * n), np.array([x[1] for x in terms], dtype=np.int_)).set_cs(np.array([complex(*x[2]) for x in terms]))
         want = sum(complex(*x[2]) * np.trace(S.rho(t) @ D.op(x[0], x[1])) for x in terms)
+    def osnap(o):
+        return {k: (v.tolist() if hasattr(v, 'tolist') else v) for k, v in vars(o).items()}
+    o_before = osnap(obj)
     try:
         got = s.expect(obj)
+        got2 = s.expect(obj)          # the same observable object asked again
     except Exception as e:
         return {'kind': 'oracle', 'where': 'np:expect(%s)' % how, 'observed': 'raised ' + type(e).__name__, 'expected': [want.real, want.imag]}
+    if osnap(obj) != o_before:
+        return {'kind': 'oracle', 'where': 'np:expect(%s) modified the observable it was given' % how, 'observed': str(osnap(obj))[:300], 'expected': str(o_before)[:300], 'tags': ['argument_modified']}
+    if abs(complex(got2) - complex(got)) > 1e-12:
+        return {'kind': 'oracle', 'where': 'np:expect(%s) returns another value when asked again' % how, 'observed': [complex(got2).real, complex(got2).imag], 'expected': [complex(got).real, complex(got).imag]}
     if abs(complex(got) - want) > 1e-9:
         return {'kind': 'oracle', 'where': 'np:expect(%s)' % how, 'observed': [complex(got).real, complex(got).imag], 'expected': [want.real, want.imag],
                 'tags': ['imag_phase'] if any(x[1] % 2 for x in terms) else []}
